@@ -514,8 +514,8 @@ void libxmp_mixer_prepare(struct context_data *ctx)
 	s->ticksize = libxmp_mixer_get_ticksize(s->freq, m->time_factor, m->rrate, p->bpm);
 
 	/* Protect the mixer from broken values caused by xmp_set_tempo_factor. */
-	if (s->ticksize < 0 || s->ticksize > (XMP_MAX_FRAMESIZE / 2)) {
-		s->ticksize = XMP_MAX_FRAMESIZE / 2;
+	if (s->ticksize < 0 || s->ticksize > (XMP_MAX_FRAMESIZE / 4)) {
+		s->ticksize = XMP_MAX_FRAMESIZE / 4;
 	}
 
 	bytelen = s->ticksize * sizeof(int32);
